@@ -140,10 +140,18 @@ class ElabPass:
 
             # Run the pass-specific `elaborate_module`
             result = self.elaborate_module(module)
-        except Exception as e:
+        except BaseException as e:
             # No longer pending, and never to be elaborated (or exported) again.
+            # That includes interruptions (`KeyboardInterrupt` and the like), for which
+            # later attempts get an error saying so rather than the interruption itself.
             self.CLASS_LEVEL_CACHE.pending.discard(module)
-            ElabPass.FAILED[module] = e
+            if isinstance(e, Exception):
+                ElabPass.FAILED[module] = e
+            elif module not in ElabPass.FAILED:
+                msg = f"Elaboration of {module} was interrupted by {type(e).__name__}, and may have left it half-rewritten"
+                failed = RuntimeError(msg)
+                failed.__cause__ = e
+                ElabPass.FAILED[module] = failed
             raise
 
         # Pop the hierarchy-stack and return it
